@@ -234,10 +234,12 @@ func init() {
 				num := MovSum(pv, p)
 				den := MovSum(v, p)
 				out := make([]RV, len(num))
+				mpv, mv := PrefixAbsMax(pv), PrefixAbsMax(v)
 				for k := range out {
 					// den is a sum of non-negative volumes: no cancellation,
 					// undefined only when every volume in the window is zero.
 					out[k] = Quot(num[k], den[k], 0)
+					out[k].S = RatioResid(mpv[k+p-1], mv[k+p-1], num[k], den[k])
 				}
 				return One(out)
 			},
